@@ -231,6 +231,10 @@ def run(ctx):
         "empty curve polygon is one token 'U 0' (its Z/M flags and shell type are not compared); hasZ/hasM as reported by the sequences "
         "(sequences created with explicit dimension flags)",
         "PrecisionModel is floating (makePrecise = identity); byte order arguments are 0 or 1; element counts < 2^32 (hypothesis Fits)",
+        "the CircularString constructor's arc-envelope computation (CircularArcs::expandEnvelope: floating-point circum-centre, "
+        "Orientation::index, Quadrant::quadrant) throws for some coordinate values; the model takes this as an oracle over the X/Y bit "
+        "patterns (theorems hold for every oracle); the driver's oracle is a Lean Float transcription of the C++ (assumes IEEE binary64 "
+        "without FMA contraction), compared on targeted mutations of arc coordinates in wkb-read",
         "where CompoundCurve::validateConstruction has undefined behaviour (empty section among >= 2 sections) the harness maps the "
         "caught SIGSEGV to 'err' and the model answers 'err' (counted as ub_crash_caught; a C11 matter)",
     ])
@@ -250,11 +254,11 @@ def run(ctx):
     quick = ctx.tier == "quick"
     shards = min(verif.NPROC, 8)
     plan = [  # (harness stream, driver stream, n, role)
-        ("wkb-write", "wkb-write", 1500 if quick else 40000, "corr"),
-        ("wkb-read", "wkb-read", 200000 if quick else 6000000, "corr"),
-        ("wkb-roundtrip-mixed", "wkb-roundtrip-model", 20000 if quick else 600000, "corr"),
-        ("wkb-roundtrip", "wkb-roundtrip", 30000 if quick else 900000, "oracle"),
-        ("wkb-roundtrip-mixed", "wkb-roundtrip", 15000 if quick else 400000, "oracle"),
+        ("wkb-write", "wkb-write", 1500 if quick else 25000, "corr"),
+        ("wkb-read", "wkb-read", 250000 if quick else 4000000, "corr"),
+        ("wkb-roundtrip-mixed", "wkb-roundtrip-model", 20000 if quick else 350000, "corr"),
+        ("wkb-roundtrip", "wkb-roundtrip", 30000 if quick else 550000, "oracle"),
+        ("wkb-roundtrip-mixed", "wkb-roundtrip", 15000 if quick else 250000, "oracle"),
     ]
     corr = {}
     seen = set()
